@@ -215,6 +215,7 @@ func (svc *InsertServiceV2) Request(req helpers.SizeGetter, insertMode int) *pro
 
 		if err != nil || inserted == 0 {
 			p.Done(0, err)
+			svc.vtrace(1, req, p, nil, inserted, err)
 			return
 		}
 		svc.size += size
@@ -222,6 +223,7 @@ func (svc *InsertServiceV2) Request(req helpers.SizeGetter, insertMode int) *pro
 			svc.insertCancel()
 		}
 		svc.results = append(svc.results, p)
+		svc.vtrace(1, req, p, nil, inserted, nil)
 	}()
 	return p
 }
@@ -231,6 +233,7 @@ func (svc *InsertServiceV2) swapBuffers() (*requestPortion, error) {
 	defer svc.mtx.Unlock()
 	svc.insertCtx, svc.insertCancel = context.WithTimeout(context.Background(), svc.pushInterval)
 	if svc.size == 0 {
+		svc.vtrace(2, nil, nil, nil, 0, nil)
 		return nil, nil
 	}
 	columns := svc.columns
@@ -240,6 +243,7 @@ func (svc *InsertServiceV2) swapBuffers() (*requestPortion, error) {
 	svc.size = 0
 	results := svc.results
 	svc.results = nil
+	svc.vtrace(2, nil, nil, results, int(size), nil)
 	return &requestPortion{columns, results, size}, nil
 }
 
@@ -253,6 +257,7 @@ func (svc *InsertServiceV2) fetchLoopIteration() {
 		svc.client, err = svc.V3Session()
 		if err != nil {
 			logger.Error("DB Connect error. Reconnect in 1s: ", err)
+			svc.vtrace(4, nil, nil, nil, 0, err)
 			time.Sleep(time.Second)
 			return
 		}
@@ -303,6 +308,7 @@ func (svc *InsertServiceV2) fetchLoopIteration() {
 
 	svc.lastRequest = time.Now()
 	releaseWaiting(err)
+	svc.vtrace(3, nil, nil, waiting, 0, err)
 
 	if err != nil {
 		svc.client.Close()
